@@ -42,8 +42,9 @@ def feqPop : List (List Float) → List (List Float) → Bool
 def bitEqList (a b : List Float) : Bool := a.map Float.toBits == b.map Float.toBits
 def bitEqPop (a b : List (List Float)) : Bool := a.map (·.map Float.toBits) == b.map (·.map Float.toBits)
 
-/-- Fuel of the Mirror model: more than any terminating case of the generator needs
-(the largest grid point is 1e6 widths away), far less than a hanging run takes. -/
+/-- Fuel of the Mirror model. After the fold the real loop needs one or two passes; the fuel is kept
+far larger so that a rewrite which folds later (or not at all for moderately distant values) and
+therefore loops longer still agrees with the model, and far smaller than a hanging run takes. -/
 def mirrorFuel : Nat := 4000000
 
 /-- One application of operator `op` to a population; `none` = panic / fuel or script exhausted. -/
@@ -52,7 +53,7 @@ def applyOp (op : String) (dom : List (Float × Float)) (pop : List (List Float)
   match op with
   | "sat" => (pop.mapM fun s => zipDomainM saturation s dom).map (·, script)
   | "tor" => some (pop.map fun s => zipDomain (toroidal Float.floor) s dom, script)
-  | "mir" => (pop.mapM fun s => zipDomainM (mirror mirrorFuel) s dom).map (·, script)
+  | "mir" => (pop.mapM fun s => zipDomainM (mirror f64RemEuclid mirrorFuel) s dom).map (·, script)
   | "otn" => oneTailedPopulation dom pop script
   | _ => none
 
